@@ -181,6 +181,10 @@ func init() {
 func (c *Enc) trimSpace(s Term) Term {
 	c.declareFun("uf_trimSpace", []Sort{SInt}, SInt)
 	r := Term{app("uf_trimSpace", s), SInt}
+	c.trusted["strings.TrimSpace"] = "TrimSpace is idempotent, maps \"\" to \"\" and never lengthens"
+	if strings.Contains(s.S, "!q") {
+		return r // under a binder: no ground instance of the axioms
+	}
 	c.assert(And(Eq(Term{app("uf_trimSpace", r), SInt}, r),
 		Le(Term{app("strLen", r), SInt}, Term{app("strLen", s), SInt}),
 		Le(IntLit(0), r),
@@ -225,6 +229,10 @@ func (c *Enc) fmtTime(t Term) Term {
 	c.declareFun("parseTimeVal", []Sort{SInt}, SInt)
 	c.declareFun("parseTimeOK", []Sort{SInt}, SBool)
 	r := Term{app("fmtTime", t), SInt}
+	c.trusted["time.Format/Parse"] = "time.Parse(RFC3339Nano, t.UTC().Format(RFC3339Nano)) returns an Equal time"
+	if strings.Contains(t.S, "!q") {
+		return r
+	}
 	// round trip, instantiated on this term
 	c.assert(And(Term{app("parseTimeOK", r), SBool}, Eq(Term{app("parseTimeVal", r), SInt}, t), Not(Eq(r, IntLit(0)))))
 	c.trusted["time.Format/Parse"] = "time.Parse(RFC3339Nano, t.UTC().Format(RFC3339Nano)) returns an Equal time"
